@@ -41,6 +41,9 @@ void harness(void)
   VF_ASSUME(file_pos >= 0 && file_pos <= 0x7fffffffL);   /* it comes from ftell() */
   for (unsigned i = 0; i < LMAX; ++i) DATA[i] = vf_u8();
   int indent_in = indent;
+#ifdef MODE_IOFAIL
+  out_fail_enabled = 1;
+#endif
 
 #if defined(MODE_CONFORM) || defined(MODE_REJECT)
   ref_line(&REF, hi, lo, len, DATA, indent_in, listo);
@@ -73,6 +76,12 @@ void harness(void)
   VF_ASSERT(!ok, "ill-formed line is rejected");
   if (len >= 2 && DATA[0] == 0x8D) VF_WITNESS("line-number reference cut by end of line");
   if (len == 1) VF_WITNESS("single invalid byte");
+#endif
+#ifdef MODE_IOFAIL
+  /* C11: a stdout primitive may report failure from any call on; decode_line must then fail (with perror) */
+  VF_ASSERT(!out_lost || (!ok && diag_emitted), "lost output makes decode_line fail with a diagnostic");
+  if (out_lost && nlog >= 2) VF_WITNESS("output lost after two successful writes");
+  if (out_lost && len == LMAX && nlog >= LMAX) VF_WITNESS("output lost on the final newline");
 #endif
 #ifdef MODE_SAFE
   if (len == LMAX) VF_WITNESS("full-length arbitrary line");
